@@ -86,6 +86,13 @@ func H_Proof() {
 		pool = [][]byte{all[0], all[4], all[7]} // split at the first nibble: root is a branch
 	case 1:
 		pool = [][]byte{all[0], all[1], all[2]} // long shared prefix: root is a short node
+	case 3:
+		// as 1, with non-zero leading nibbles (a shared-prefix node's key read as a number is not 0)
+		for _, k := range [][]byte{all[0], all[1], all[2]} {
+			c := append([]byte{}, k...)
+			c[0], c[1], c[2], c[3] = 0x11, 0x11, 0x11, 0x11
+			pool = append(pool, c)
+		}
 	default:
 		pool = [][]byte{all[0], all[3], all[4], all[5]}
 	}
@@ -131,7 +138,10 @@ func H_Proof() {
 	vp.Observe("honest", err == nil, bytes.Equal(hash, trusted))
 
 	// forgery part: start from the honest proof of any block b2 of the same trie
-	kind := vp.Choose("tamper", vp.Param("tampers", 8))
+	kind := vp.Choose("tamper", vp.Param("tampers", 9))
+	if ok := vp.Param("onlykind", -1); ok >= 0 && kind != ok {
+		vp.Assume(false)
+	}
 	if kind == 0 {
 		vp.Cover("C10.done")
 		return
@@ -288,12 +298,30 @@ func H_Proof() {
 		fake := &wmpt.PersistNodeBase{Value: &wmpt.PersistNodeValue{Value: val, Hash: pn.Branch.Hash, Weight: w}}
 		pt.Pairs = append(append([]*wmpt.PersistTriePair{}, pt.Pairs[:i]...), &wmpt.PersistTriePair{Value: encodeNode(fake)})
 	}
+	if kind == 8 {
+		// substitute a shared-prefix (short) element by a VALUE node: the short node's hash is
+		// H(key nibbles || child hash), a value node's is H(weight || value); weight := the first
+		// 8 key nibbles read as a number, value := the remaining nibbles || child hash
+		i := vp.Choose("elem", np)
+		pn := decodeNode(pt.Pairs[i].Value)
+		if pn.Short == nil || len(pn.Short.Key) < 8 || len(pn.Short.Value) < 32 {
+			vp.Assume(false)
+		}
+		var w uint64
+		for q := 0; q < 8; q++ {
+			w = w<<8 | uint64(pn.Short.Key[q])
+		}
+		val := append(append([]byte{}, pn.Short.Key[8:]...), pn.Short.Value[:32]...)
+		fake := &wmpt.PersistNodeBase{Value: &wmpt.PersistNodeValue{Value: val, Hash: pn.Short.Hash, Weight: w}}
+		pt.Pairs = append(append([]*wmpt.PersistTriePair{}, pt.Pairs[:i]...), &wmpt.PersistTriePair{Value: encodeNode(fake)})
+		vp.Cover("C10.short-as-value.built")
+	}
 	forged := encodePairs(pt)
 	var fh, fv []byte
 	var ferr error
 	// the verifier is a fresh trie, or one that has already verified the honest proof
 	ver := wmpt.New(nil, nil)
-	if vp.Choose("reused-verifier", 2) == 1 {
+	if vp.Param("reuse", 1) == 1 && vp.Choose("reused-verifier", 2) == 1 {
 		if vp.NoPanic("C10.verify.nopanic", func() { ver.VerifyBlockProof(b, proof) }) {
 			return
 		}
@@ -305,6 +333,7 @@ func H_Proof() {
 	vp.Observe("forged", kind, accepted)
 	vp.Known("C10.no-forgery", "reweight-sum-preserved", vp.And(kind == 1, region))
 	vp.Known("C10.no-forgery", "branch-as-value-node", kind == 7)
+	vp.Known("C10.no-forgery", "short-as-value-node", kind == 8)
 	if accepted {
 		vp.Assert("C10.no-forgery", ownerValueIs(fv))
 		vp.Cover("C10.tampered-accepted")
